@@ -28,6 +28,11 @@ package eval
 //@   inline 8 2
 
 //@ func (*ti/eval.Class).Evaluation
+//@   # C12: the inherited constructor that a class without `initialize` gets is re-labelled on a copy;
+//@   # the frame / class of a type object that existed before this evaluation (a method-table entry,
+//@   # possibly a configured builtin's `new`) is never rewritten here
+//@   callsite[C12] SetFrame fresh(a_t)
+//@   callsite[C12] SetObjectClass fresh(a_t)
 //@   requires wfP(p)
 //@   eosexit
 //@   inline 8 2
